@@ -216,6 +216,7 @@ def describe_counterexample(eng, ob):
 def discharge(eng: Engine, ob: Obligation, use_cvc5=True):
     asserts = list(eng.global_axioms) + list(ob.pc)
     if ob.want_sat:
+        asserts = [smt.abstract_quantifiers(a) for a in asserts]
         v = smt.check_sat(asserts, want_model=False, use_cvc5=use_cvc5)
         ob.verdict = v
         ob.proved = v.status == 'sat'
@@ -281,6 +282,10 @@ def obligation_assertions(eng, ob):
     asserts = list(eng.global_axioms) + list(ob.pc)
     if not ob.want_sat:
         asserts.append(smt.NOT(ob.goal))
+    else:
+        # vacuity guard: satisfiability of the quantifier-free part of the assumed pre-state / path (quantified facts are
+        # replaced by fresh propositions: `unsat` here means the assumptions are contradictory on their own)
+        asserts = [smt.abstract_quantifiers(a) for a in asserts]
     return asserts
 
 
